@@ -192,11 +192,10 @@ io_status_t MiniPacketTunnelIOGateway :: DoOutputImplementation(uint32 maxBytes)
             }
             else LogTime(MUSCLE_LOG_ERROR, "MiniPacketTunnelIOGateway::DoOutputImplementation():  Deflate() failed!\n");
 
-            if (defBuf() == NULL)
-            {
-               // Oops, no compression occurred!  Better patch the packet-header to reflect that or the receiver will be confused
-               DefaultEndianConverter::Export(_sendPacketIDCounter, &writeBuf[2*sizeof(uint32)]);
-            }
+            // Make sure the packet-header says whether the chunks after it are deflated or not, or the receiver will be confused.
+            // This needs to be (re)written on every attempt:  a packet that the DataIO didn't accept stays in _outputPacketBuffer
+            // (with whatever the previous attempt put into its header) and may have had more chunks appended to it since then.
+            DefaultEndianConverter::Export(_sendPacketIDCounter|(defBuf() ? (((uint32)_sendCompressionLevel)<<24) : 0), &writeBuf[2*sizeof(uint32)]);
          }
 #endif
 
